@@ -48,21 +48,29 @@ func init() {
 }
 
 type c13Case struct {
-	op      string
-	workers int
-	maxErr  int
-	p, q    int
-	seqs    [][]byte
-	counts  []int            // op g
-	smaps   []map[string]int // op a
+	op       string
+	workers  int
+	maxErr   int
+	p, q     int
+	seqs     [][]byte
+	counts   []int            // op g
+	smaps    []map[string]int // op a, c
+	onlyHead bool             // op c
 }
 
 func c13Parse(c string) (cs c13Case, ok bool) {
 	f := strings.Fields(c)
-	if len(f) < 5 || (f[0] != "g" && f[0] != "a") {
+	if len(f) < 5 || (f[0] != "g" && f[0] != "a" && f[0] != "c") {
 		return cs, false
 	}
 	cs.op = f[0]
+	if cs.op == "c" { // c <workers> <maxError> <p> <q> <head 0|1> items...
+		if len(f) < 6 || (f[5] != "0" && f[5] != "1") {
+			return cs, false
+		}
+		cs.onlyHead = f[5] == "1"
+		f = append(append([]string{}, f[:5]...), f[6:]...)
+	}
 	var err error
 	nums := make([]int, 4)
 	for i := 0; i < 4; i++ {
@@ -185,6 +193,17 @@ func (cs c13Case) run(workers int) string {
 		}
 		if cs.op == "g" {
 			return c13Nodes(obiclean.VerifBuildGraph(seqs, append([]int{}, cs.counts...), workers, cs.maxErr, cs.ratio()))
+		}
+		if cs.op == "c" {
+			recs := obiclean.VerifCLIOBIClean(seqs, cs.smaps, workers, cs.maxErr, cs.ratio(), cs.onlyHead)
+			if len(recs) == 0 {
+				return "-"
+			}
+			parts := make([]string, len(recs))
+			for i, r := range recs {
+				parts[i] = fmt.Sprintf("%d:%s", r.Orig, c13Annots([]obiclean.VerifAnnot{r.Annot}))
+			}
+			return strings.Join(parts, " ")
 		}
 		return c13Annots(obiclean.VerifAnnotate(seqs, cs.smaps, workers, cs.maxErr, cs.ratio()))
 	})
